@@ -49,9 +49,19 @@ impl PanicInfo {
         let f = self.loc.rsplit_once(':').map(|x| x.0).unwrap_or(&self.loc);
         f.trim_start_matches("/repo/").to_string()
     }
+    /// message class: the message without the case-specific tail
     pub fn short_msg(&self) -> String {
-        let m: String = self.msg.chars().take(60).collect();
-        m.replace('\n', " ")
+        let m = self.msg.replace('\n', " ");
+        let cut = ["` value", "Tried to", "Unexpected rule"]
+            .iter()
+            .filter_map(|k| m.find(k).map(|i| i + k.len()))
+            .min()
+            .unwrap_or(usize::MAX);
+        let mut out: String = m.chars().take(70).collect();
+        if cut < out.len() && m.is_char_boundary(cut) {
+            out = m[..cut].to_string();
+        }
+        out
     }
 }
 
@@ -86,7 +96,7 @@ pub fn guard<T>(f: impl FnOnce() -> T) -> Result<T, Stop> {
                 };
                 (msg, String::new())
             });
-            if msg.contains("capacity overflow") || msg.contains("memory allocation") {
+            if msg.contains("capacity overflow") || msg.contains("Exhausted") || msg.contains("memory allocation") {
                 return Err(Stop::Exhausted);
             }
             Err(Stop::Panic(PanicInfo { msg, loc }))
